@@ -1,9 +1,15 @@
 import PyxisVerif.Props.C12
 #print axioms PyxisVerif.C12.new_ok
-#print axioms PyxisVerif.C12.addModule_ok
+#print axioms PyxisVerif.C12.new_ok_bounded
+#print axioms PyxisVerif.C12.addModule_ok_refuted
+#print axioms PyxisVerif.C12.addModule_ok_partial
+#print axioms PyxisVerif.C12.addModule_ok_partial_bounded
 #print axioms PyxisVerif.C12.addModule_no_panic
-#print axioms PyxisVerif.C12.attempt_ok
+#print axioms PyxisVerif.C12.attempt_ok_refuted
+#print axioms PyxisVerif.C12.attempt_ok_partial
 #print axioms PyxisVerif.C12.attempt_no_panic
-#print axioms PyxisVerif.C12.build_total
-#print axioms PyxisVerif.C12.run_total
+#print axioms PyxisVerif.C12.build_total_refuted
+#print axioms PyxisVerif.C12.build_total_partial
+#print axioms PyxisVerif.C12.run_total_refuted
+#print axioms PyxisVerif.C12.run_total_partial
 #print axioms PyxisVerif.C12.alloc_only_for_huge_tables
